@@ -310,17 +310,8 @@ func (c *compiler) compileType(y *Type, parent Leafable, isUnion bool) error {
 	}
 
 	if y.format == val.FmtLeafRef || y.format == val.FmtLeafRefList {
-		if y.path == "" {
-			return fmt.Errorf("%s - %s path is required", SchemaPath(parent), y.ident)
-		}
-		// parent is a leaf, so start with parent's parent which is a container-ish
-		resolvedMeta := Find(parent, y.path)
-		if resolvedMeta == nil {
-			return fmt.Errorf("%s - %s path cannot be resolved", SchemaPath(parent), y.ident)
-		} else if target, isLeaf := resolvedMeta.(HasType); isLeaf {
-			y.delegate = target.Type()
-		} else {
-			return fmt.Errorf("%s - %s path does not lead to a leaf or leaf-list", SchemaPath(parent), y.ident)
+		if err := c.resolveLeafref(y, parent); err != nil {
+			return err
 		}
 	} else {
 		y.delegate = y
@@ -393,6 +384,33 @@ func (c *compiler) compileType(y *Type, parent Leafable, isUnion bool) error {
 		}
 	}
 
+	return nil
+}
+
+// the type of the leaf a leafref's path leads to, seen from the leaf that has the leafref
+func (c *compiler) resolveLeafref(y *Type, parent Leafable) error {
+	if y.path == "" {
+		return fmt.Errorf("%s - %s path is required", SchemaPath(parent), y.ident)
+	}
+	// parent is a leaf, so start with parent's parent which is a container-ish
+	resolvedMeta := Find(parent, y.path)
+	if resolvedMeta == nil {
+		return fmt.Errorf("%s - %s path cannot be resolved", SchemaPath(parent), y.ident)
+	} else if target, isLeaf := resolvedMeta.(HasType); isLeaf {
+		y.delegate = target.Type()
+		// a leafref that leads back to itself, directly or through other leafrefs, has no
+		// type: following it (every conversion of a value does) would not end
+		for t, hops := y.delegate, 0; t != nil; t, hops = t.delegate, hops+1 {
+			if t == y || hops > 1000 {
+				return fmt.Errorf("%s - %s path leads back to the leaf itself", SchemaPath(parent), y.ident)
+			}
+			if t.delegate == t {
+				break
+			}
+		}
+	} else {
+		return fmt.Errorf("%s - %s path does not lead to a leaf or leaf-list", SchemaPath(parent), y.ident)
+	}
 	return nil
 }
 
